@@ -34,13 +34,19 @@ def c06Static (x : AgInfo) (c : AgD) : Verdicts :=
   let v3 : Verdicts := match c.sel with
     | some i => if ids.contains i then [] else [("C06", s!"selected pair {i} is not one of the listed pairs")]
     | none => []
+  -- a remote candidate is its type, transport address (network type + canonical address: the literal it was
+  -- signalled with does not matter) and related address
   let keys := c.rems.map fun r => (r.ty, r.net, r.addr, r.rel)
   let rec dupKey (l : List (Nat × Nat × Nat × String)) : Option (Nat × Nat × Nat × String) :=
     match l with
     | [] => none
     | k :: ks => if ks.contains k then some k else dupKey ks
   let v4 : Verdicts := match dupKey keys with
-    | some (ty, net, addr, _) => [("C06", s!"remote candidate {ty}@{net}.{addr} is listed twice (not deduplicated)")]
+    | some (ty, net, addr, rel) =>
+      let forms := (c.rems.filter fun r => r.ty == ty && r.net == net && r.addr == addr && r.rel == rel).map (·.form)
+      let mixed := match forms with | f :: fs => fs.any (· != f) | [] => false
+      [("C06", s!"remote candidate {ty}@{net}.{addr} is listed twice (not deduplicated)" ++
+        (if mixed then ": the same transport address was signalled through different address literals (canonical and IPv4-mapped / expanded form)" else ""))]
     | none => []
   let v5 : Verdicts := c.rems.filterMap fun r =>
     if x.blk.contains (r.addr / 16) then some ("C06", s!"remote candidate {r.ty}@{r.net}.{r.addr} has an address rejected by the remote IP filter") else none
@@ -66,6 +72,44 @@ def c06Dyn (x : AgInfo) (p c : AgD) : Verdicts :=
         (if ok then acc else acc ++ [("C06", s!"pair {q.id} lost state, priority or statistics when its peer-reflexive remote was superseded")]) ++
         (if selOk then [] else [("C06", s!"pair {q.id} lost the selection when its peer-reflexive remote was superseded")])
       else acc) []
+
+/-- `addremote X ty net addr prio rel [form]` accepted as a NEW signalled (not peer-reflexive) candidate: no
+peer-reflexive candidate with its transport address stays listed (RFC 8838 §11.4 supersession). -/
+def c06Supersede (x : AgInfo) (w : String) (p c : AgD) (toks : List String) : Verdicts :=
+  if x.closed then [] else
+  match toks with
+  | "addremote" :: who :: ty :: net :: addr :: rest =>
+    match ty.toNat?, net.toNat?, addr.toNat? with
+    | some ty, some net, some addr =>
+      if who != w || ty == 3 then [] else
+      let form : Nat := match rest with | [_, _, f] => (f.toNat?).getD 0 | _ => 0
+      let cnt (a : AgD) : Nat := (a.rems.filter fun r => r.ty == ty && r.net == net && r.addr == addr && r.form == form).length
+      if cnt c ≤ cnt p then [] else
+      match c.rems.find? fun r => r.ty == 3 && r.net == net && r.addr == addr &&
+          (p.rems.any fun o => o.ty == 3 && o.net == net && o.addr == addr && o.rel == r.rel && o.form == r.form) with
+      | some r =>
+        [("C06", s!"peer-reflexive remote candidate 3@{net}.{addr} is still listed after the signalled candidate {ty}@{net}.{addr} with the same transport address was added (not superseded)" ++
+          (if r.form != form then ": their address literals differ (canonical vs IPv4-mapped / expanded form of the same address)" else ""))]
+      | none => []
+    | _, _, _ => []
+  | _ => []
+
+/-- an inbound datagram (`inject` / `deliver` / `dup`) from the transport address of a remote candidate that is
+already listed never creates a (duplicate) peer-reflexive candidate for that address. -/
+def c06NoDupPrflx (x : AgInfo) (p c : AgD) (toks : List String) : Verdicts :=
+  if x.closed then [] else
+  match toks with
+  | "inject" :: _ | "deliver" :: _ | "dup" :: _ =>
+    let cnt (a : AgD) (net addr : Nat) : Nat := (a.rems.filter fun r => r.ty == 3 && r.net == net && r.addr == addr).length
+    match c.rems.find? fun r => r.ty == 3 && cnt c r.net r.addr > cnt p r.net r.addr &&
+        (p.rems.any fun o => o.net == r.net && o.addr == r.addr) with
+    | some r =>
+      let known := p.rems.filter fun o => o.net == r.net && o.addr == r.addr
+      [("C06", s!"an inbound check from {r.net}.{r.addr}, the transport address of the listed remote candidate " ++
+        ", ".intercalate (known.map fun o => s!"{o.ty}@{o.net}.{o.addr}" ++ (if o.form != 0 then s!"~{o.form}" else "")) ++
+        ", created a duplicate peer-reflexive candidate")]
+    | none => []
+  | _ => []
 
 /-- how many pairs on (local addr, remote addr, remote type) exceed the number of candidate combinations -/
 def dupExcess (c : AgD) (la ra rty : Nat) : Nat :=
